@@ -331,6 +331,13 @@ def run(F, R, tier):
         if not R.anchor("builtin %s" % name, g):
             continue
         body = H.body_of(g)
+        # helpers that are handed the builtin's work as a closure (`with_one_arg(args, |arg| ..)`) are read with the closure
+        # applied; `let (a, b) = (&args[0], &args[1])` names two arguments
+        takers = {c_.get("callee") for c_ in H.walk(body) if c_.get("k") in ("call", "mcall") and c_.get("callee") in F.fns and
+                  any(H.strip(a_).get("k") == "closure" for a_ in c_.get("args", []))}
+        if takers:
+            body = H.beta(H.inline_helpers(F, body, max_size=400, skip=lambda c_: c_ not in takers))
+        body = H.split_tuple_lets(body)
         npos = len(spec["args"])
         # arity
         for n in range(0, 5):
@@ -395,7 +402,7 @@ def run(F, R, tier):
     if R.anchor("VM::call_builtin", cb):
         from .lib import fmtargs as FA
         ok, det = False, "no Err arm over the builtin's result"
-        for m in H.walk(H.body_of(cb)):
+        for m in H.walk(H.body_inl(F, cb, keep=("new", "push", "pop"))):
             if m.get("k") != "match" or H.is_try(m):
                 continue
             for a in m["arms"]:
@@ -413,7 +420,8 @@ def run(F, R, tier):
                             e = H.strip(pt[1])
                             shape.append("<payload>" if H.local_id(e) in payload else "<%s>" % H.render(e))
                     shapes.append(shape)
-                rt = [c for c in H.walk(a["body"]) if c.get("k") == "call" and (c.get("callee") or "").endswith("RTError::new")]
+                rt = [c for c in H.walk(a["body"]) if c.get("k") == "call" and (c.get("callee") or "").endswith("RTError::new")] or \
+                    [c for c in H.walk(H.body_inl(F, cb, keep=("new", "push", "pop"))) if c.get("k") == "call" and (c.get("callee") or "").endswith("RTError::new")]
                 errs = [c for c in H.walk(a["body"]) if c.get("k") == "call" and H.last(c.get("ctor") or "") == "Err"]
                 det = "message template(s) %s; RTError::new: %d; Err(..): %d" % (shapes, len(rt), len(errs))
                 ok = shapes == [["<builtin.name>", ": ", "<payload>"]] and len(rt) == 1 and len(errs) == 1
@@ -444,14 +452,17 @@ def run(F, R, tier):
         g = F.fn(reg.get(fn, ""))
         if not R.anchor("builtin %s" % fn, g and g.get("mir")):
             continue
-        B = M.Body(g)
         casts = []
-        for b_ in B.blocks:
-            if b_.get("cleanup"):
+        # the builtin's own body and the closures written in it (the work may be handed to a helper as a closure)
+        for q_, gq in F.fns.items():
+            if not (q_ == g["path"] or q_.startswith(g["path"] + "::{closure")) or not gq.get("mir"):
                 continue
-            for st in b_["stmts"]:
-                rv = st.get("rv") or {}
-                if st.get("k") == "assign" and rv.get("k") == "cast" and rv.get("ck") == "FloatToInt":
-                    casts.append(rv.get("ty"))
+            for b_ in gq["mir"]["blocks"]:
+                if b_.get("cleanup"):
+                    continue
+                for st in b_["stmts"]:
+                    rv = st.get("rv") or {}
+                    if st.get("k") == "assign" and rv.get("k") == "cast" and rv.get("ck") == "FloatToInt":
+                        casts.append(rv.get("ty"))
         R.ob("representation", "%s(Float) converts with a single cast to %s" % (fn, unit), bool(casts) and set(casts) == {unit},
              "float-to-integer casts in builtin_%s: %s" % (fn, casts), F.loc(g))
